@@ -21,6 +21,7 @@ typedef struct fc_ctx {
 	const octet* plain; size_t plain_len; /* what an auth failure must not release */
 	octet* dest; size_t dest_len;
 	int variant;         /* descriptor-specific sub-case chosen by gen */
+	int no_rng;          /* FC_RNG(c) yields a null generator */
 } fc_ctx;
 
 octet* fc_pub(fc_ctx* c, size_t n);    /* public input, exact size, from c->rng */
@@ -30,6 +31,7 @@ octet* fc_raw(fc_ctx* c, size_t n);    /* scratch, neither secret nor output */
 void fc_mark_pub(fc_ctx* c, const void* p, size_t n);
 void fc_mark_sec(fc_ctx* c, const void* p, size_t n);
 void fc_tape(void* buf, size_t count, void* state);  /* gen_i over c->tape */
+#define FC_RNG(c) ((c)->no_rng ? (gen_i)0 : fc_tape)
 uint32_t fc_below(fc_ctx* c, uint32_t n);
 #define FC_PICK(c, arr) ((arr)[fc_below((c), (uint32_t)(sizeof(arr) / sizeof((arr)[0])))])
 
@@ -37,6 +39,7 @@ uint32_t fc_below(fc_ctx* c, uint32_t n);
 #define FC_AUTH   2u   /* authenticated unwrap: corrupted input must not release plaintext */
 #define FC_SLOW   4u   /* expensive call: sampled less often */
 #define FC_MATH   8u   /* arithmetic layer with caller-owned stack: C07 base mode only */
+#define FC_RNGARG 32u  /* the call passes the caller's generator as FC_RNG(c): the engine adds the variant rng == 0 -> ERR_BAD_RNG */
 #define FC_KEYOUT 16u  /* outputs are keys released by a verification: after a failed call each output is untouched or constant */
 #define FC_ANYERR ((err_t)0xFFFFFFFEu)  /* "any error code" in an expect list */
 /* soft variant: the header's \expect condition is of the hard-to-check kind
